@@ -266,6 +266,25 @@ func (f *File) Read(b []byte) (int, error) {
 	return f.f.Read(b)
 }
 
+// PathError / NewFile: pass-throughs, so that a locker that opens its file with a raw system call still builds
+type PathError = os.PathError
+
+func NewFile(fd uintptr, name string) *File {
+	step("newfile")
+	f := os.NewFile(fd, name)
+	if f == nil {
+		return nil
+	}
+	w := W
+	w.mu.Lock()
+	me := w.pidOf[vs.ThreadID()]
+	w.gen++
+	file := &File{f: f, gen: w.gen}
+	w.openFiles[me] = append(w.openFiles[me], file)
+	w.mu.Unlock()
+	return file
+}
+
 func OpenFile(name string, flag int, perm FileMode) (*File, error) {
 	step("open")
 	f, err := os.OpenFile(name, flag, perm)
